@@ -740,6 +740,25 @@ func TestVerifC10(t *testing.T) {
 		w.l.Close()
 	}
 
+	// 0b. scripted: the page is a prefix of the listing but not the maximal one under the byte cap
+	// (props/C10.v C10_kv_budget_not_maximal): database a (20 bytes), c (16); delta b (13); cap 34
+	{
+		w := vc10Open(t, t.Name()+"-budget")
+		w.st = st
+		ka, kb, kc := vc10BoxKey(7, "a"), vc10BoxKey(7, "b"), vc10BoxKey(7, "c")
+		rd := vc10Round{created: map[uint64]int{}, destroyed: map[uint64]int{}}
+		rd.kv = []vc10Kv{{ka, make([]byte, 8), nil}, {kc, make([]byte, 4), nil}}
+		w.addRound(rd)
+		w.flushTo(1)
+		rd = vc10Round{created: map[uint64]int{}, destroyed: map[uint64]int{}}
+		rd.kv = []vc10Kv{{kb, []byte{1}, nil}}
+		w.addRound(rd)
+		for _, mb := range []uint64{33, 34, 36, 49} {
+			w.queryKv(out, w.roundsTerm(2), 2, vc10BoxKey(7, ""), "", 5, mb, true)
+		}
+		w.l.Close()
+	}
+
 	for h := 0; h < nHist; h++ {
 		w := vc10Open(t, t.Name()+"-h"+string(rune('a'+h%26))+string(rune('a'+h/26)))
 		w.st = st
